@@ -1,6 +1,7 @@
 use crate::Stream;
 
 pub mod c10;
+pub mod c11;
 pub mod c12;
 pub mod c19;
 
@@ -9,6 +10,7 @@ pub fn lookup(name: &str) -> Option<Box<dyn Stream>> {
         "c19" => Some(Box::new(c19::C19::new())),
         "c12" => Some(Box::new(c12::C12::new())),
         "c10" => Some(Box::new(c10::C10::new())),
+        "c11" => Some(Box::new(c11::C11::new())),
         _ => None,
     }
 }
